@@ -107,6 +107,49 @@ def make_mapping(U, env):
     return mapping, xpt
 
 
+def needed_domain_problem(obj, ctx, complex_mode):
+    """Does the value of obj depend on a subexpression outside its (real: real-valued; any: finite) domain?  Lazy walk:
+    of a Conditional only the condition and the SELECTED branch are needed."""
+    from ufl.classes import Conditional, MultiIndex
+    from mc.sem.jet import is_real
+
+    seen = {}
+
+    def real_valued(v):
+        arr = v.reshape(-1) if isinstance(v, np.ndarray) else [v]
+        return all(isinstance(x, bool) or is_real(const_of(x), mpf("1e-25")) for x in arr)
+
+    def walk(n):
+        if id(n) in seen or isinstance(n, MultiIndex):
+            return seen.get(id(n), False)
+        seen[id(n)] = False
+        if n.ufl_free_indices:
+            # inside an index scope: be conservative (count as a possible domain problem only if evaluation fails below)
+            kids = list(n.ufl_operands)
+        elif isinstance(n, Conditional):
+            c, t, f = n.ufl_operands
+            try:
+                sel = t if bool(M.sem(c, ctx, {})) else f
+            except Exception:  # noqa: BLE001
+                seen[id(n)] = True
+                return True
+            kids = [c, sel]
+        else:
+            kids = list(n.ufl_operands)
+        bad = any(walk(k) for k in kids)
+        if not bad and not n.ufl_free_indices and hasattr(n, "ufl_shape"):
+            try:
+                v = M.sem(n, ctx, {})
+                if not complex_mode and not real_valued(v):
+                    bad = True
+            except Exception:  # noqa: BLE001
+                bad = True
+        seen[id(n)] = bad
+        return bad
+
+    return walk(obj)
+
+
 def eval_check(recipe, obj, lts, ctxs, envs, part, U):
     if obj.ufl_free_indices:
         return None
@@ -160,9 +203,18 @@ def eval_check(recipe, obj, lts, ctxs, envs, part, U):
                     "math domain error" in str(e) or "division by zero" in str(e) or "math range error" in str(e) or isinstance(e, OverflowError)
                 ):
                     # real-number evaluation outside the function's real domain (the model continues
-                    # on the complex principal branch): not a wrong value
-                    part.count("real_domain_error")
-                    break
+                    # on the complex principal branch): not a wrong value - PROVIDED a subexpression that the value
+                    # depends on is outside its domain; a branch that the conditional does not select is not one
+                    if isinstance(e, OverflowError) or "math range error" in str(e) or needed_domain_problem(obj, ctx, cm):
+                        part.count("real_domain_error")
+                        break
+                    part.violation(
+                        f"{PID}:raises-in-unselected-branch:{key}",
+                        f"evaluating {key} component {comp} raises {type(e).__name__}: {e}, although every subexpression the value depends on "
+                        f"is inside its domain (mathematical value {M.show(ref[comp] if comp else ref)})",
+                        {"recipe": recipe, "show": key, "component": list(comp), "exception": f"{type(e).__name__}: {e}", "env": env.describe()},
+                    )
+                    return "VIOLATION"
                 # UFL's evaluator refuses this expression although the model gives it a value
                 part.violation(
                     f"{PID}:raises:{type(e).__name__}:{key}",
@@ -218,7 +270,7 @@ def main(argv):
             run.exhaustive = False
         print(f"[{PID}] level {lvl}: {len(cands)} candidates t={time.time() - run.t0:.0f}s", file=sys.stderr)
         run.bounds[f"level{lvl}_candidates"] = len(cands)
-        new = run_level(cands, U, envs, PID, run, run.seed, extra_check=eval_check, compare=False, sample_every=sample_every)
+        new = run_level(cands, U, envs, PID, run, run.seed, extra_check=eval_check, compare=False, sample_every=sample_every, check_undefined=True)
         sts, _ = dedup(new, seen, lvl, run)
         return sts
 
@@ -309,8 +361,24 @@ def main(argv):
             ("mul", ("sin", inner), ("mul", d.recipe, a.recipe)),
         ]
     l4 = level(c, 4, sample_every=200)
+    # conditionals guarding a singularity: the unselected branch has no value at the point (division by zero, ln / sqrt
+    # outside the real domain); both orientations of every condition, scalar and tensor-valued
+    rf, rg = ("t", "f"), ("t", "g")
+    sing = [("div", ("num", 1), ("sub", rf, rf)), ("ln", ("neg", ("abs", rf))), ("sqrt", ("neg", ("abs", rg))), ("div", rg, ("sub", ("getitem", ("t", "x"), 0), ("getitem", ("t", "x"), 0)))]
+    safe = [rf, ("mul", rf, rg), ("num", 2)]
+    c = []
+    for cnd in conds[: (6 if quick else 30)]:
+        for sg in sing:
+            for sf in safe:
+                c.append(("conditional", cnd.recipe, sf, sg))
+                c.append(("conditional", cnd.recipe, sg, sf))
+                c.append(("mul", ("conditional", cnd.recipe, sf, sg), rg))
+                c.append(("conditional", ("Not", cnd.recipe), sg, sf))
+            c.append(("conditional", cnd.recipe, ("t", "v"), ("as_vector", sg, rf)))
+            c.append(("conditional", cnd.recipe, ("as_vector", sg, rf), ("t", "v")))
+    l5 = level(c, 5, sample_every=100)
     run.bounds.update(
-        levels=[len(l0), len(l1), len(l2), len(l3), len(l4)],
+        levels=[len(l0), len(l1), len(l2), len(l3), len(l4), len(l5)],
         terminals=sorted(U.t),
         envs=[e.name for e in envs],
         mapping="Constant -> number; Coefficient -> callable f(x, derivatives) (one coefficient uses the f(x) signature), generated from the environment polynomials",
@@ -329,7 +397,7 @@ def replay(run, U, envs):
 
     recipe = tup(rp["witness"]["recipe"])
     part = Part()
-    check_recipe(recipe, U, envs, part, PID, extra_check=eval_check, compare=False)
+    check_recipe(recipe, U, envs, part, PID, extra_check=eval_check, compare=False, check_undefined=True)
     run.merge(part.dict())
     run.states = 1
     run.finish()
